@@ -61,6 +61,21 @@ I1 == TInt(1)   I8 == TInt(8)   I32 == TInt(32)   I64 == TInt(64)
 
 Opaque       == [opaque |-> TRUE]
 Body(pk, fs) == [opaque |-> FALSE, pk |-> pk, fs |-> fs]
+\* `%V = type <2 x i32>`: in LLVM a name for a non-struct type is an ALIAS -- it is resolved while
+\* parsing and denotes the underlying type (llvm-as prints the underlying type).  The library keeps
+\* the name on the type object (TypeName), so such names occur as operand types (C06); they never
+\* take part in identity.  Deref replaces every alias name by what it stands for.
+Alias(t)     == [opaque |-> FALSE, alias |-> t]
+IsAlias(U, nm) == "alias" \in DOMAIN U[nm]
+RECURSIVE Deref(_, _)
+Deref(U, t) ==
+  CASE t.k = "named"  -> IF IsAlias(U, t.nm) THEN Deref(U, U[t.nm].alias) ELSE t
+    [] t.k = "ptr"    -> [t EXCEPT !.e = Deref(U, t.e)]
+    [] t.k = "vec"    -> [t EXCEPT !.e = Deref(U, t.e)]
+    [] t.k = "arr"    -> [t EXCEPT !.e = Deref(U, t.e)]
+    [] t.k = "struct" -> [t EXCEPT !.fs = [i \in 1..Len(t.fs) |-> Deref(U, t.fs[i])]]
+    [] t.k = "func"   -> [t EXCEPT !.ret = Deref(U, t.ret), !.ps = [i \in 1..Len(t.ps) |-> Deref(U, t.ps[i])]]
+    [] OTHER          -> t
 
 SeqRange(s) == {s[i] : i \in 1..Len(s)}
 
